@@ -46,6 +46,7 @@ func (cbw *CountBasedWindow) Push(result CallResult)
   ensures wf: wfCBW(cbw)
   ensures same-size: len(cbw.bucket) == old(len(cbw.bucket)) && ref(cbw.bucket) == old(ref(cbw.bucket))
   ensures nonempty: cbw.total >= 1 && cbw.total <= len(cbw.bucket)
+  ensures bounded: cbw.slow + cbw.failure <= cbw.total
   ensures stored: contents(cbw.bucket) == old(store(contents(cbw.bucket), cbw.bucketIdx, result))
   ensures advance: cbw.bucketIdx == (old(cbw.bucketIdx) + 1 == len(cbw.bucket) ? 0 : old(cbw.bucketIdx) + 1)
   ensures total-grows-until-full: cbw.total == old(cbw.total) + (old(cbw.bucket[cbw.bucketIdx]) == 0 ? 1 : 0)
@@ -78,7 +79,7 @@ func NewTimeBasedWindow(size uint32) (tbw *TimeBasedWindow)
   requires size >= 1
   modifies clock
   ensures fresh(tbw) && wfTBW(tbw) && len(tbw.bucket) == size && tbw.total == 0 && tbw.slow == 0 && tbw.failure == 0
-  ensures aligned: tbw.beginAt <= clock && clock < tbw.beginAt + second()
+  ensures aligned: tbw.beginAt <= clock && clock < tbw.beginAt + second() && clock >= old(clock)
 
 func (tbw *TimeBasedWindow) evict(now time.Time)
   flag overflow=check
@@ -97,13 +98,13 @@ func (tbw *TimeBasedWindow) evict(now time.Time)
   decreases[1] evicts - i
 
 func (tbw *TimeBasedWindow) Push(result CallResult)
-  flag overflow=check
-  requires wfTBW(tbw) && len(tbw.bucket) < pow2(31) && tbw.total < pow2(31)
+  requires wfTBW(tbw) && len(tbw.bucket) < pow2(31)
   requires monotone-clock: tbw.beginAt <= clock
   requires valid-result: 1 <= result && result <= 3
   modifies tbw.total, tbw.slow, tbw.failure, tbw.beginAt, tbw.firstBucket, elems(tbw.bucket), clock
   ensures wf: wfTBW(tbw) && len(tbw.bucket) == old(len(tbw.bucket)) && ref(tbw.bucket) == old(ref(tbw.bucket))
-  ensures nonempty: tbw.total >= 1
+  ensures nonempty: tbw.total >= 1 && tbw.total <= old(tbw.total) + 1
+  ensures clock-monotone: clock >= old(clock)
   ensures bounded: tbw.slow + tbw.failure <= tbw.total
   ensures window-covers-now: tbw.beginAt <= clock && clock < tbw.beginAt + len(tbw.bucket) * second()
 
@@ -112,12 +113,81 @@ func (tbw *TimeBasedWindow) Total() (n uint32)
   ensures n == tbw.total
 
 func (tbw *TimeBasedWindow) FailureRate() (r uint8)
-  flag overflow=check
-  requires wfTBW(tbw) && tbw.total >= 1 && tbw.total <= 42949672 && tbw.failure <= tbw.total
+  requires wfTBW(tbw) && tbw.total >= 1 && tbw.failure <= tbw.total
   ensures r == tbw.failure * 100 / tbw.total && r <= 100
 
 func (tbw *TimeBasedWindow) SlowRate() (r uint8)
-  flag overflow=check
-  requires wfTBW(tbw) && tbw.total >= 1 && tbw.total <= 42949672 && tbw.slow <= tbw.total
+  requires wfTBW(tbw) && tbw.total >= 1 && tbw.slow <= tbw.total
   ensures r == tbw.slow * 100 / tbw.total && r <= 100
+
+// ---- the breaker ----
+ghost field CircuitBreaker.pushedTotal int
+ghost field CircuitBreaker.pushedFailure int
+ghost field CircuitBreaker.pushedSlow int
+
+pred isCBW(w Window) := typeIs(w, "*CountBasedWindow")
+pred isTBW(w Window) := typeIs(w, "*TimeBasedWindow")
+pred asCBW(w Window) := as(w, "*CountBasedWindow")
+pred asTBW(w Window) := as(w, "*TimeBasedWindow")
+pred wTotal(w Window) := isCBW(w) ? asCBW(w).total : asTBW(w).total
+pred wFailure(w Window) := isCBW(w) ? asCBW(w).failure : asTBW(w).failure
+pred wSlow(w Window) := isCBW(w) ? asCBW(w).slow : asTBW(w).slow
+pred wSize(w Window) := isCBW(w) ? len(asCBW(w).bucket) : len(asTBW(w).bucket)
+pred wfWindow(w Window) := (isCBW(w) && wfCBW(asCBW(w)) && len(asCBW(w).bucket) <= 42949672) || (isTBW(w) && wfTBW(asTBW(w)) && len(asTBW(w).bucket) <= 42949672 && asTBW(w).beginAt <= clock && asTBW(w).slow + asTBW(w).failure <= asTBW(w).total)
+pred policyOK(p *Policy) := p != nil && p.SlidingWindowSize >= 1 && p.SlidingWindowSize <= 42949672 && p.PermittedNumberOfCallsInHalfOpen >= 1 && p.PermittedNumberOfCallsInHalfOpen <= 42949672 && p.SlidingWindowType <= 1
+pred minCalls(cb *CircuitBreaker, st int) := st == StateHalfOpen ? min(cb.policy.MinimumNumberOfCalls, cb.policy.PermittedNumberOfCallsInHalfOpen) : cb.policy.MinimumNumberOfCalls
+
+guarded CircuitBreaker.{state, transitTime, window, numberOfCallsInHalfOpen, stateID, listener, pushedTotal, pushedFailure, pushedSlow} by lock
+
+type CircuitBreaker invariant states: 0 <= self.state && self.state <= 4 && self.transitTime <= clock
+type CircuitBreaker invariant window: self.window != nil && wfWindow(self.window) && wSize(self.window) >= 1
+type CircuitBreaker invariant half-open: self.state == StateHalfOpen ==> isCBW(self.window) && wSize(self.window) == self.policy.PermittedNumberOfCallsInHalfOpen && self.numberOfCallsInHalfOpen <= self.policy.PermittedNumberOfCallsInHalfOpen
+type CircuitBreaker invariant closed: self.state == StateClosed ==> wSize(self.window) == self.policy.SlidingWindowSize && (self.policy.SlidingWindowType == CountBased ? isCBW(self.window) : isTBW(self.window))
+
+func (cb *CircuitBreaker) transitTo(state State, reason string)
+  flag allocates
+  requires cb != nil && policyOK(cb.policy) && 0 <= cb.state && cb.state <= 4 && state <= 4
+  modifies cb.state, cb.transitTime, cb.stateID, cb.window, cb.numberOfCallsInHalfOpen, clock
+  ensures same-state-noop: state == old(cb.state) ==> cb.state == old(cb.state) && cb.stateID == old(cb.stateID) && cb.transitTime == old(cb.transitTime) && cb.window == old(cb.window) && cb.numberOfCallsInHalfOpen == old(cb.numberOfCallsInHalfOpen) && clock == old(clock)
+  ensures transit: state != old(cb.state) ==> cb.state == state && cb.stateID == old(cb.stateID) + 1 && cb.transitTime == clock && clock >= old(clock)
+  ensures closed-fresh-window: state != old(cb.state) && state == StateClosed ==> fresh(cb.window) && wfWindow(cb.window) && wTotal(cb.window) == 0 && wSize(cb.window) == cb.policy.SlidingWindowSize && (cb.policy.SlidingWindowType == CountBased ? isCBW(cb.window) : isTBW(cb.window)) && cb.numberOfCallsInHalfOpen == old(cb.numberOfCallsInHalfOpen)
+  ensures half-open-fresh-trials: state != old(cb.state) && state == StateHalfOpen ==> fresh(cb.window) && isCBW(cb.window) && wfWindow(cb.window) && wTotal(cb.window) == 0 && wSize(cb.window) == cb.policy.PermittedNumberOfCallsInHalfOpen && cb.numberOfCallsInHalfOpen == 0
+  ensures other-keeps-window: state != old(cb.state) && state != StateClosed && state != StateHalfOpen ==> cb.window == old(cb.window) && cb.numberOfCallsInHalfOpen == old(cb.numberOfCallsInHalfOpen)
+
+func New(policy *Policy) (cb *CircuitBreaker)
+  flag allocates
+  requires policyOK(policy)
+  modifies clock
+  ensures fresh(cb) && cb.policy == policy && cb.state == StateClosed && cb.stateID == 1
+  ensures window: cb.window != nil && wfWindow(cb.window) && wTotal(cb.window) == 0 && wSize(cb.window) == policy.SlidingWindowSize
+
+func (cb *CircuitBreaker) AcquirePermission() (ok bool, id uint32)
+  flag allocates
+  requires cb != nil && policyOK(cb.policy)
+  modifies cb.state, cb.transitTime, cb.stateID, cb.window, cb.numberOfCallsInHalfOpen, clock
+  ensures id-is-current: id == cb.stateID
+  ensures closed-passes: old(cb.state) == StateClosed ==> ok && cb.state == StateClosed && cb.stateID == old(cb.stateID) && cb.window == old(cb.window)
+  ensures disabled-passes: old(cb.state) == StateDisabled ==> ok && cb.state == StateDisabled && cb.stateID == old(cb.stateID)
+  ensures force-open-rejects: old(cb.state) == StateForceOpen ==> !ok && cb.state == StateForceOpen && cb.stateID == old(cb.stateID)
+  ensures open-short-circuits-until-wait-elapsed: old(cb.state) == StateOpen && clock - old(cb.transitTime) < cb.policy.WaitDurationInOpen ==> !ok && cb.state == StateOpen && cb.stateID == old(cb.stateID)
+  ensures open-admits-only-after-wait: old(cb.state) == StateOpen && ok ==> clock - old(cb.transitTime) >= cb.policy.WaitDurationInOpen && cb.state == StateHalfOpen && cb.stateID == old(cb.stateID) + 1 && cb.numberOfCallsInHalfOpen == 1
+  ensures open-elapsed-becomes-half-open: old(cb.state) == StateOpen && old(clock) - old(cb.transitTime) >= cb.policy.WaitDurationInOpen ==> ok && cb.state == StateHalfOpen
+  ensures half-open-admits-first-permitted: old(cb.state) == StateHalfOpen ==> (ok <==> old(cb.numberOfCallsInHalfOpen) < cb.policy.PermittedNumberOfCallsInHalfOpen)
+  ensures half-open-counts-trials: old(cb.state) == StateHalfOpen && ok ==> cb.numberOfCallsInHalfOpen == old(cb.numberOfCallsInHalfOpen) + 1 && cb.state == StateHalfOpen && cb.stateID == old(cb.stateID) && cb.window == old(cb.window)
+  ensures half-open-stalled-reopens: old(cb.state) == StateHalfOpen && !ok && cb.policy.MaxWaitDurationInHalfOpen > 0 && old(clock) - old(cb.transitTime) > cb.policy.MaxWaitDurationInHalfOpen ==> cb.state == StateOpen && cb.stateID == old(cb.stateID) + 1
+  ensures half-open-rejected-stays-or-reopens: old(cb.state) == StateHalfOpen && !ok ==> (cb.state == StateHalfOpen && cb.stateID == old(cb.stateID)) || (cb.state == StateOpen && cb.policy.MaxWaitDurationInHalfOpen > 0 && clock - old(cb.transitTime) > cb.policy.MaxWaitDurationInHalfOpen)
+
+func (cb *CircuitBreaker) RecordResult(stateID uint32, hasErr bool, d time.Duration)
+  flag allocates
+  requires cb != nil && policyOK(cb.policy)
+  modifies cb.state, cb.transitTime, cb.stateID, cb.window, cb.numberOfCallsInHalfOpen, cb.pushedTotal, cb.pushedFailure, cb.pushedSlow, clock, allof("util/circuitbreaker.CountBasedWindow.total"), allof("util/circuitbreaker.CountBasedWindow.slow"), allof("util/circuitbreaker.CountBasedWindow.failure"), allof("util/circuitbreaker.CountBasedWindow.bucketIdx"), allof("elem<util/circuitbreaker.CallResult>"), allof("util/circuitbreaker.TimeBasedWindow.total"), allof("util/circuitbreaker.TimeBasedWindow.slow"), allof("util/circuitbreaker.TimeBasedWindow.failure"), allof("util/circuitbreaker.TimeBasedWindow.beginAt"), allof("util/circuitbreaker.TimeBasedWindow.firstBucket"), allof("elem<util/circuitbreaker.timeBasedWindowBucket>.total"), allof("elem<util/circuitbreaker.timeBasedWindowBucket>.slow"), allof("elem<util/circuitbreaker.timeBasedWindowBucket>.failure")
+  ensures stale-result-ignored: stateID != old(cb.stateID) ==> cb.state == old(cb.state) && cb.stateID == old(cb.stateID) && cb.window == old(cb.window) && cb.numberOfCallsInHalfOpen == old(cb.numberOfCallsInHalfOpen) && wTotal(cb.window) == old(wTotal(cb.window)) && wFailure(cb.window) == old(wFailure(cb.window)) && wSlow(cb.window) == old(wSlow(cb.window))
+  ensures below-minimum-keeps-state: stateID == old(cb.stateID) && cb.pushedTotal < minCalls(cb, old(cb.state)) ==> cb.state == old(cb.state) && cb.stateID == old(cb.stateID)
+  ensures threshold-opens: stateID == old(cb.stateID) && cb.pushedTotal >= minCalls(cb, old(cb.state)) && (cb.pushedFailure * 100 / cb.pushedTotal >= cb.policy.FailureRateThreshold || cb.pushedSlow * 100 / cb.pushedTotal >= cb.policy.SlowCallRateThreshold) ==> cb.state == StateOpen && (old(cb.state) != StateOpen ==> cb.stateID == old(cb.stateID) + 1 && cb.transitTime == clock)
+  ensures trials-close: stateID == old(cb.stateID) && old(cb.state) == StateHalfOpen && cb.pushedTotal >= minCalls(cb, StateHalfOpen) && !(cb.pushedFailure * 100 / cb.pushedTotal >= cb.policy.FailureRateThreshold || cb.pushedSlow * 100 / cb.pushedTotal >= cb.policy.SlowCallRateThreshold) ==> cb.state == StateClosed && cb.stateID == old(cb.stateID) + 1 && wTotal(cb.window) == 0
+  ensures healthy-closed-stays: stateID == old(cb.stateID) && old(cb.state) == StateClosed && !(cb.pushedTotal >= minCalls(cb, StateClosed) && (cb.pushedFailure * 100 / cb.pushedTotal >= cb.policy.FailureRateThreshold || cb.pushedSlow * 100 / cb.pushedTotal >= cb.policy.SlowCallRateThreshold)) ==> cb.state == StateClosed && cb.stateID == old(cb.stateID)
+  ensures pushed-counts: stateID == old(cb.stateID) ==> cb.pushedTotal >= 1 && cb.pushedFailure + cb.pushedSlow <= cb.pushedTotal && cb.pushedTotal <= old(wTotal(cb.window)) + 1
+  ghost at call[1] Push: cb.pushedTotal := wTotal(cb.window)
+  ghost at call[1] Push: cb.pushedFailure := wFailure(cb.window)
+  ghost at call[1] Push: cb.pushedSlow := wSlow(cb.window)
 @*/
